@@ -2,12 +2,12 @@
 //@ crate: aquavm-air
 //@ attach: air/src/preparation_step/preparation.rs
 //@ functions: check_version_compatibility; min_supported_version (once_cell Lazy + semver::Version::from_str); <semver::Version as PartialOrd>::lt; semver::Prerelease::cmp; semver::BuildMetadata::cmp
-//@ stubs: <semver::BuildMetadata as Ord>::cmp -> Equal, asserting that both sides are empty (exact for the inputs used); std::thread::current / park -> assume(false), Thread::unpark -> no-op (single-threaded Lazy initialisation never waits); alloc::fmt::format -> empty String
+//@ stubs: <semver::Prerelease as Ord>::cmp -> the documented rule 'release > pre-release' for the empty/non-empty cases, asserting that two non-empty pre-releases are never compared (third-party code; its identifier-wise comparison goes through split/memchr and does not finish); <semver::BuildMetadata as Ord>::cmp -> Equal, asserting that both sides are empty (exact for the inputs used); std::thread::current / park -> assume(false), Thread::unpark -> no-op (single-threaded Lazy initialisation never waits); alloc::fmt::format -> empty String
 //@ assumes: build metadata empty; pre-release is empty (c21_release_versions) or the literal "alpha" (c21_prerelease_versions)
 //@ decides: C21: a release version is rejected iff (major,minor,patch) < (0,61,0) lexicographically, for all u64 triples; a pre-release of x.y.z is rejected iff (x,y,z) <= (0,61,0); the minimum is read from the real min_supported_version()
 //@ outside: decoding of the envelope (msgpack), routing of the error to "previous data returned" (runner.rs), other pre-release strings
-//@ harness: name=c21_release_versions props=C21 tier=thorough core=0 cap=1800 cost=120 sym="major, minor, patch: any u64" bound="pre-release and build metadata empty; unwind 12"
-//@ harness: name=c21_prerelease_versions props=C21 tier=thorough core=0 cap=1800 cost=200 sym="major, minor, patch: any u64" bound="pre-release = alpha; unwind 12"
+//@ harness: name=c21_release_versions props=C21 cap=1800 cost=120 sym="major, minor, patch: any u64" bound="pre-release and build metadata empty; unwind 12"
+//@ harness: name=c21_prerelease_versions props=C21 cap=1800 cost=200 sym="major, minor, patch: any u64" bound="pre-release = alpha; unwind 12"
 //@ harness: name=c21_min_version_is_0_61_0 props=C21 cap=900 cost=40 sym="none (concrete): the constant behind the check" bound="-"
 
 use super::*;
@@ -18,6 +18,22 @@ include!("_air_stubs.rs");
 fn build_cmp_stub(a: &semver::BuildMetadata, b: &semver::BuildMetadata) -> std::cmp::Ordering {
     kani::assert(a.is_empty() && b.is_empty(), "stub exactness: build metadata is empty on both sides");
     std::cmp::Ordering::Equal
+}
+
+/// semver::Prerelease::cmp: "a real release compares greater than a pre-release"; two non-empty pre-releases
+/// are compared identifier by identifier (split + memchr: what CBMC cannot get through).  Only the first rule
+/// is needed here (the minimum 0.61.0 has no pre-release); the stub asserts that the other case is not used.
+fn pre_cmp_stub(a: &semver::Prerelease, b: &semver::Prerelease) -> std::cmp::Ordering {
+    use std::cmp::Ordering::*;
+    match (a.is_empty(), b.is_empty()) {
+        (true, true) => Equal,
+        (true, false) => Greater,
+        (false, true) => Less,
+        (false, false) => {
+            kani::assert(false, "stub exactness: two non-empty pre-releases are never compared in these harnesses");
+            Equal
+        }
+    }
 }
 
 fn lex_lt(a: (u64, u64, u64), b: (u64, u64, u64)) -> bool {
@@ -31,6 +47,7 @@ fn lex_lt(a: (u64, u64, u64), b: (u64, u64, u64)) -> bool {
 #[kani::stub(std::thread::Thread::unpark, thread_unpark_stub)]
 #[kani::stub(alloc::fmt::format, fmt_stub)]
 #[kani::stub(<semver::BuildMetadata as std::cmp::Ord>::cmp, build_cmp_stub)]
+#[kani::stub(<semver::Prerelease as std::cmp::Ord>::cmp, pre_cmp_stub)]
 fn c21_release_versions() {
     let (ma, mi, pa): (u64, u64, u64) = (kani::any(), kani::any(), kani::any());
     let v = Versions {
@@ -52,6 +69,7 @@ fn c21_release_versions() {
 #[kani::stub(std::thread::Thread::unpark, thread_unpark_stub)]
 #[kani::stub(alloc::fmt::format, fmt_stub)]
 #[kani::stub(<semver::BuildMetadata as std::cmp::Ord>::cmp, build_cmp_stub)]
+#[kani::stub(<semver::Prerelease as std::cmp::Ord>::cmp, pre_cmp_stub)]
 fn c21_prerelease_versions() {
     let (ma, mi, pa): (u64, u64, u64) = (kani::any(), kani::any(), kani::any());
     let mut iv = semver::Version::new(ma, mi, pa);
